@@ -57,7 +57,9 @@ Inductive attack :=
 Record case := {
   c_msgs : list N; c_R : list nat; c_nonce : N; c_key : N;
   c_payload : list N; c_len : N; c_proof : list N; c_intact : bool;
-  c_kind : prefix_kind; c_keypfx : list N; c_pfx : list N;   (* Tink output prefix type, prefix of signature / of proof *)
+  c_ks : list kentry; c_signer : nat;      (* the verifier's keyset; the key that signed *)
+  c_sigpfx : list N; c_pfx : list N;      (* observed prefix of the signature / of the derived proof *)
+  c_gd : N;                               (* generators h0, h_1.. pairwise distinct: 0 not observed, 1 yes, 2 no *)
   c_tr : list (list nat * nat * list N);   (* padding bits, extra messages, observed challenge-input labels *)
   c_att : list (attack * verdict) }.
 
@@ -124,6 +126,9 @@ Definition forge (fam : N) (x : N) (pf : proof N) (e r2 : N) (bl z : nat -> N) (
   | _ => mk (p_c1 pf) (p_r1 pf) (p_c2 pf) (drop_last (p_r2 pf))
   end.
 
+Fixpoint nodup_N (l : list N) : bool :=
+  match l with [] => true | a :: r => negb (existsb (N.eqb a) r) && nodup_N r end.
+
 Definition expected_len (n hidden : nat) : N :=
   N.of_nat (2 + bv_len n + 144 + 4 + 116 + 52 + 32 * (2 + hidden)).
 
@@ -144,9 +149,20 @@ Definition check_case (c : case) : bool :=
   end &&
   N.eqb (c_len c) (expected_len n hidden) &&
   Bool.eqb (c_intact c) (list_N_eqb (proof_after_verify Fixed (c_proof c)) (c_proof c)) &&
-  (* the derived proof carries the signing key's output prefix *)
-  list_N_eqb (c_pfx c) (c_keypfx c) &&
-  Nat.eqb (length (c_keypfx c)) (match c_kind c with PRaw => 0 | _ => 5 end) &&
+  (* the signature carries the signing key's output prefix; the wrapper's DeriveProof (only the signing key's
+     primitive can derive) puts the same prefix in front of the proof *)
+  let spfx := match nth_error (c_ks c) (c_signer c) with Some e => k_pfx e | None => [99] end in
+  list_N_eqb (c_sigpfx c) spfx &&
+  match wrapped_derive_ks (c_ks c) (c_sigpfx c ++ [0; 0; 0; 0; 0])
+          (fun i _ => if Nat.eqb i (c_signer c) then Some (c_payload c ++ [0; 0; 0; 0; 0]) else None) with
+  | Some out => list_N_eqb out (c_pfx c ++ c_payload c ++ [0; 0; 0; 0; 0])
+  | None => false
+  end &&
+  (* generator distinctness: the model's generators are pairwise distinct, so must be the real ones *)
+  (match c_gd c with
+   | 0 => true
+   | g => Bool.eqb (N.eqb g 1) (nodup_N (h0 N zgen x n :: hs N zgen x n))
+   end) &&
   (* the bytes the verifier hashes into the challenge, point by point *)
   forallb (fun '(pads, extra, labels) =>
              list_N_eqb labels (label_transcript n (idx_from 0 mask) pads (nrev + extra)%nat)) (c_tr c) &&
@@ -180,14 +196,16 @@ Definition check_case (c : case) : bool :=
       forallb (fun '(a, obs) =>
         let pred :=
           match a with
-          | AHonest => zverify Fixed x pf nonce rv
+          | AHonest =>
+              wrapped_verify_ks (c_ks c) (c_pfx c ++ c_payload c ++ [0; 0; 0; 0; 0])
+                             (fun i _ => if Nat.eqb i (c_signer c) then zverify Fixed x pf nonce rv else VReject)
           | ASupplied l => zverify Fixed x pf nonce (map m_of l)
           | ANonce k => zverify Fixed x pf (nonce_of (c_nonce c + 1 + k)) rv
           | AKey => zverify Fixed (key_of (c_key c + 1000)) pf nonce rv
           | APrefix pos xm =>
               (* the wrapper on (altered prefix ++ proof); the inner verifier would see the honest proof *)
-              wrapped_verify (c_kind c) (c_keypfx c) (alter pos xm (c_pfx c) ++ c_payload c)
-                             (fun _ => zverify Fixed x pf nonce rv)
+              wrapped_verify_ks (c_ks c) (alter pos xm (c_pfx c) ++ c_payload c ++ [0; 0; 0; 0; 0])
+                             (fun i _ => if Nat.eqb i (c_signer c) then zverify Fixed x pf nonce rv else VReject)
           | AForge fam cR sup pads =>
               zverify Fixed x
                 (forge fam x pf (zmix seed 1) (zmix seed 4) (fun i => zmix seed (N.of_nat i + 10))
